@@ -648,27 +648,40 @@ Definition is_none (o : option nat) : bool := match o with None => true | Some _
 (* (filtering branch?, progress truthy?, per-task results of direct calls (None = the task returned None), num_processes, cpus,
     schedule, serial result, result with num_processes) -- tasks are identified with their index *)
 Definition case_t : Type :=
-  bool * bool * list (option nat) * nproc * nat * list nat * list (option nat) * list (option nat).
+  bool * bool * list (option nat) * nproc * nat * list nat * list (option nat) * list (option nat) * (nat * nat).
 
 Definition worker (table : list (option nat)) (i : nat) : option nat :=
   match nth_error table i with Some r => r | None => Some 999999 end.
 
 Definition agree (c : case_t) : bool :=
-  let '(filtering, progress, table, np, ncpu, sigma, serial, parallel) := c in
+  let '(filtering, progress, table, np, ncpu, sigma, serial, parallel, (opt_serial, opt_parallel)) := c in
   let P := if filtering then P_refine else P_storage progress in
   let tasks := seq 0 (length table) in
+  (* the caller's options are state 0 before the call; a task that writes into the object it is handed leaves it in
+     a state the harness does not predict (999999); opt_serial / opt_parallel: the state observed after the call *)
+  let task := fun (o : nat) (i : nat) => (worker table i, 999999) in
   match mapped is_none P (worker table) (worker table) (NPInt 1) ncpu sigma tasks,
         mapped is_none P (worker table) (worker table) np ncpu sigma tasks with
-  | Done s, Done p => list_eqb opt_eqb s serial && list_eqb opt_eqb p parallel
+  | Done s, Done p =>
+      list_eqb opt_eqb s serial && list_eqb opt_eqb p parallel &&
+      (if filtering then
+         match mapped_with_options is_none P refine_copies_options task 0 (NPInt 1) ncpu sigma tasks,
+               mapped_with_options is_none P refine_copies_options task 0 np ncpu sigma tasks with
+         | Done (s', os), Done (p', op) =>
+             list_eqb opt_eqb s' serial && list_eqb opt_eqb p' parallel && Nat.eqb os opt_serial && Nat.eqb op opt_parallel
+         | _, _ => false
+         end
+       else true)
   | _, _ => false
   end.
 """
 
 
-def case_literal(filtering: bool, table, np_, sigma, serial, parallel, progress=False) -> str:
+def case_literal(filtering: bool, table, np_, sigma, serial, parallel, progress=False, options=(0, 0)) -> str:
     o = lambda x: "None" if x is None else f"(Some {x})"  # noqa
     return (f"(({vlib.blit(filtering)}, {vlib.blit(bool(progress))}, {vlib.listlit(table, o)}, {np_literal(np_)}, {ncpu()}, "
-            f"{vlib.listlit(sigma)}, {vlib.listlit(serial, o)}, {vlib.listlit(parallel, o)}) : case_t)")
+            f"{vlib.listlit(sigma)}, {vlib.listlit(serial, o)}, {vlib.listlit(parallel, o)}, "
+            f"({options[0]}, {options[1]})) : case_t)")
 
 
 # ---------------------------------------------------------------------------------------
@@ -695,11 +708,15 @@ def check(ctx: vlib.Ctx) -> int:
 
 def _check(ctx: vlib.Ctx) -> int:
     rng = random.Random(ctx.seed)
-    ok = vlib.prove(ctx, ["Proofs/C15.vo"], gens=["Gen_glue"])
-    ctx.tie.append("translator (Gen_glue regenerated from /repo: gather kind, iterated argument, max_workers rule, "
-                   "serial test of refine_droplets / from_storage) + correspondence (gathered lists vs "
-                   "Model/Parallel.v inside Coq under forced completion orders)")
-    gen_ok = not any("translator failed closed" in n for n in ctx.notes)
+    ok, fresh = vlib.prove_with_fallback(ctx, ["Proofs/C15.vo"], gens=["Gen_glue"])
+    ctx.tie.append("correspondence: gathered lists, (time, emulsion) pairs and the caller's option dicts after the call, "
+                   "under forced completion orders, compared inside Coq with Model/Parallel.v over the "
+                   + ("regenerated" if fresh else "GOLDEN") + " facts of Gen_glue (gather kind, max_workers rule, serial "
+                   "test, filters, option copying)" + ("" if fresh else " -- the translator did not carry the current "
+                                                       "source, this correspondence is the tie; every disagreement is "
+                                                       "a violation"))
+    gen_ok = True  # the Coq side evaluates Gen.Gen_glue as it is in the build directory (fresh or golden)
+    lit_cases = []
     log = str(ctx.casedir / "completion.log")
     ctx.casedir.mkdir(parents=True, exist_ok=True)
     violations = []
@@ -753,8 +770,11 @@ def _check(ctx: vlib.Ctx) -> int:
                         "serial": [floats(x) for x in obs["serial"]]})
         if obs["parallel"][0] == "ok":
             table = [None if d is None else ids(d) for d in obs["direct"]]
+            oid = lambda m: 0 if m is None else 1 + ids(("options", m[1]))  # noqa: 0 = as the caller wrote them
             literals.append(case_literal(True, table, case["num_processes"], obs["sigma"],
-                                         [ids(d) for d in obs["serial"]], [ids(d) for d in obs["parallel"][1]]))
+                                         [ids(d) for d in obs["serial"]], [ids(d) for d in obs["parallel"][1]],
+                                         options=(oid(obs.get("mutation_serial")), oid(obs.get("mutation_parallel")))))
+            lit_cases.append(case)
     # ---- locate_droplets(refine=True, num_processes=...)
     for k in range(ctx.scale(12, 48)):
         case = gen_locate_case(rng, k)
@@ -778,6 +798,7 @@ def _check(ctx: vlib.Ctx) -> int:
             literals.append(case_literal(False, [ids(("pair", t, key(e))) for t, e in zip(case["times"], obs["direct"])],
                                          case["num_processes"], obs["sigma"], pkey(obs["serial"]),
                                          pkey(obs["parallel"][1]), progress=case["progress"]))
+            lit_cases.append(case)
     # ---- DropletTrackList.from_storage (forwards num_processes and progress)
     for k in range(ctx.scale(6, 24)):
         case = gen_tracklist_case(rng, k)
@@ -806,6 +827,11 @@ def _check(ctx: vlib.Ctx) -> int:
         if bad:
             ctx.broken.append(f"correspondence: Model/Parallel.v (over the generated facts) and the implementation "
                               f"differ on pool cases {bad[:6]}")
+            for i in bad[:2]:
+                if not any(v["input"] is lit_cases[i] for v in violations):
+                    violations.append({"what": f"{lit_cases[i]['call']}: the gathered results / the caller's options "
+                                               "after the call differ from Model/Parallel.v over the facts in use "
+                                               "(compared inside Coq)", "input": lit_cases[i], "found": True})
 
     # ---- something no longer checks but the stream found nothing: search harder
     if ctx.broken and not violations:
